@@ -299,10 +299,11 @@ def sigFromPy(pobj):
         for k, v in pobj.items():
             if vtype is None:
                 vtype = type(v)
+                first = v
             elif not isinstance(v, vtype):
                 same = False
         if same:
-            return 'a{' + sigFromPy(k) + sigFromPy(v) + '}'
+            return 'a{' + sigFromPy(k) + sigFromPy(first) + '}'
         else:
             return 'a{' + sigFromPy(k) + 'v}'
 
